@@ -729,6 +729,17 @@ func (w *world) convertCluster(c *ClusterJ) map[string]any {
 	return map[string]any{"namespaces": nss, "sas": sas, "pods": pods, "ext": ext, "eps": eps, "profiles": profiles}
 }
 
+// safeConvertNP: a panic of the converter on a valid object is recorded (as a missing policy with the panic
+// text), which the specification never accepts - it is an observation about the code, not a driver failure.
+func (w *world) safeConvertNP(np *networkingv1.NetworkPolicy) (kvp *model.KVPair, err error) {
+	defer func() {
+		if r := recover(); r != nil {
+			kvp, err = nil, fmt.Errorf("PANIC in K8sNetworkPolicyToCalico: %v", r)
+		}
+	}()
+	return w.conv.K8sNetworkPolicyToCalico(np)
+}
+
 func (w *world) convertCase(nps []NPJ, nilMaps bool) map[string]any {
 	logged := []NPJ{}
 	pols := []any{}
@@ -736,7 +747,7 @@ func (w *world) convertCase(nps []NPJ, nilMaps bool) map[string]any {
 	for i := range nps {
 		np := buildNP(&nps[i], nilMaps)
 		logged = append(logged, projNP(np))
-		kvp, err := w.conv.K8sNetworkPolicyToCalico(np)
+		kvp, err := w.safeConvertNP(np)
 		if err != nil {
 			errs = append(errs, err.Error())
 		}
